@@ -3,7 +3,7 @@
 EXTENDS BuildOrder, GenLib
 CONSTANTS N, Labels, Fill
 SrcName(i) == <<115, 48 + i>>                      \* s<i>
-Bin(i, k) == <<115, 48 + i, HYPHEN, 96 + k>>       \* s<i>-a, s<i>-b
+Bin(i, k) == IF k = 2 THEN <<115, 48 + i, HYPHEN, 195, 169>> ELSE <<115, 48 + i, HYPHEN, 96 + k>>       \* s<i>-a, s<i>-é (a name is its bytes, ASCII or not)
 Ext == <<100, 101, 98, 104, 101, 108, 112, 101, 114>>   \* debhelper (not built by any source here)
 Pairs == {<<i, j>> \in (1..N) \X (1..N) : i # j}
 \* label of the ordered pair (i, j): how does source j refer to a binary of source i?
